@@ -141,6 +141,126 @@ fn corpus_sweep(profile: corpus::Profile, n: usize, sh: &util::Shard) -> Report 
     rep
 }
 
+
+// ------------------------------------------------------------------ single edits of well-formed programs
+
+/// Well-formed seed programs, one per syntactic form (tokens separated by blanks).
+pub const EDIT_SEEDS: &[&str] = &[
+    "{ a : 1 , b :: 2 , c ::: 3 }",
+    "{ local v = 1 , a : v , assert self . a == 1 : \"m\" }",
+    "{ [ k ] : 1 for k in [ \"a\" , \"b\" ] if k != \"b\" }",
+    "{ local v = k , [ k ] +: v for k in [ \"a\" ] for j in [ k ] }",
+    "{ a : 1 } + { a +: 2 , f ( x , y = 2 ) : x + y }",
+    "{ a : 1 } { a : super . a + 1 , b : \"a\" in super }",
+    "[ x + 1 for x in [ 1 , 2 , 3 ] if x > 1 for y in [ x ] ]",
+    "local f ( x , y = 1 ) = x + y ; f ( 1 , y = 2 )",
+    "local a = 1 , b = a ; function ( p = b ) p",
+    "( function ( x ) x * 2 ) ( 3 ) tailstrict",
+    "if true then 1 else if false then 2 else 3",
+    "[ 0 , 1 , 2 , 3 ] [ 1 : 3 : 1 ]",
+    "\"abc\" [ : : 2 ] + \"x\" [ 0 ]",
+    "assert 1 < 2 : \"m\" ; error \"e\" + 1",
+    "local o = { a : { b : [ 1 ] } } ; o . a . b [ 0 ]",
+    "- 1 + ! true || ~ 2 & 3 | 4 ^ 5 << 1 >> 1 % 2",
+    "1 == 1 && 2 != 3 && 1 <= 2 && 2 >= 1 && \"a\" in { a : 1 }",
+    "std . length ( [ 1 , 2 ] ) + $ . a",
+    "{ a : $ . b , b : self . c , c : 1 } . a",
+    "import \"x\" + importstr \"y\" + importbin \"z\"",
+    "||| \n a \n ||| + @\"q\" + 'r'",
+    "{ a : 1 } { b : 2 } { c : 3 }",
+    "local f = function ( a , b ) [ a , b ] ; f ( b = 1 , a = 2 )",
+    "{ assert true , a : 1 } . a",
+    "{ \"q\" : 1 , 'r' : 2 , [ null ] : 3 }",
+];
+
+/// Edit alphabet: single tokens and member-/clause-sized fragments.
+pub const EDIT_ALPHABET: &[&str] = &[
+    "{", "}", "[", "]", "(", ")", ",", ";", ":", "::", ":::", "+:", ".", "=", "+", "-", "!", "==", "<", "in", "$", "self", "super", "local", "assert", "function",
+    "if", "then", "else", "for", "error", "import", "tailstrict", "null", "true", "1", "\"a\"", "k", "x", "|||",
+    "assert true ,", ", assert true : \"m\"", "local v = 1 ,", ", local v = 1", "for k in [ \"a\" ]", "if true", "[ k ] : 1 ,", ", [ k ] +: 1", "a : 1 ,", ", b :: 2",
+    "f ( x ) : x ,", "x = 1", ", y = 2", "( 1 )", "[ 0 ]", "[ : ]", ". a", "{ }", "{ a : 1 }", "local v = 1 ;", "assert true ;", "function ( x )", "then 1 else",
+];
+
+pub fn edit_cases(seed: &str, two: bool) -> Vec<String> {
+    edit_cases_with(seed, two, EDIT_ALPHABET)
+}
+
+pub fn edit_cases_with(seed: &str, two: bool, alphabet: &[&str]) -> Vec<String> {
+    let toks: Vec<&str> = seed.split(' ').collect();
+    let mut out: Vec<String> = vec![seed.to_string()];
+    let one = |toks: &[&str], out: &mut Vec<String>| {
+        for i in 0..=toks.len() {
+            for a in alphabet {
+                let mut t = toks.to_vec();
+                t.insert(i, a);
+                out.push(t.join(" "));
+            }
+            if i < toks.len() {
+                let mut t = toks.to_vec();
+                t.remove(i);
+                out.push(t.join(" "));
+                for a in alphabet {
+                    if *a != toks[i] {
+                        let mut t = toks.to_vec();
+                        t[i] = a;
+                        out.push(t.join(" "));
+                    }
+                }
+                if i + 1 < toks.len() {
+                    let mut t = toks.to_vec();
+                    t.swap(i, i + 1);
+                    out.push(t.join(" "));
+                }
+            }
+        }
+    };
+    one(&toks, &mut out);
+    if two {
+        // second deviation: every deletion after every deletion / fragment insertion
+        let first: Vec<String> = out.clone();
+        for f in first.iter().skip(1).filter(|f| f.split(' ').count() <= toks.len() + 4) {
+            let t: Vec<&str> = f.split(' ').collect();
+            for i in 0..t.len() {
+                let mut u = t.clone();
+                u.remove(i);
+                out.push(u.join(" "));
+            }
+        }
+    }
+    out
+}
+
+fn edit_sweep(two: bool, sh: &util::Shard) -> Report {
+    let mut rep = Report::new();
+    let mut n = 0u64;
+    for (si, seed) in EDIT_SEEDS.iter().enumerate() {
+        let cases = edit_cases(seed, two);
+        let base = n;
+        let mut start = 0usize;
+        // a fresh Program after every internal failure, continuing with the next case
+        while start < cases.len() {
+            let arena = Arena::new();
+            let mut p = Program::new(&arena);
+            let mut next = cases.len();
+            for (ci, c) in cases.iter().enumerate().skip(start) {
+                let id = base + ci as u64 + 1;
+                if !sh.mine(id) || !sh.begin_case(id, &|| c.clone()) {
+                    continue;
+                }
+                rep.states += 1;
+                if classify(&mut p, c.as_bytes(), &mut rep, "edited program").is_none() {
+                    next = ci + 1;
+                    break;
+                }
+            }
+            start = next;
+        }
+        n = base + cases.len() as u64;
+        rep.distinct(&(si, "edit"));
+    }
+    rep
+}
+
 // ------------------------------------------------------------------ builtins
 
 pub fn arg_pool(quick: bool) -> Vec<&'static str> {
@@ -289,6 +409,12 @@ pub fn run(ctx: &Ctx) -> i32 {
         total.extra.insert(format!("token_sequences_len{len}"), json!(r.states));
         total.merge(r);
     }
+    // 2b. every single edit (token or fragment insertion, deletion, replacement, swap) of the seed programs
+    let r = util::par_forked(&cfg, 128, |sh| edit_sweep(!ctx.quick(), sh));
+    total.extra.insert("edited_programs".into(), json!(r.states));
+    total.extra.insert("edit_seeds".into(), json!(EDIT_SEEDS.len()));
+    total.extra.insert("edit_alphabet".into(), json!(EDIT_ALPHABET.len()));
+    total.merge(r);
     // 3. programs
     let plan: Vec<(corpus::Profile, usize)> = if ctx.quick() { vec![(corpus::FULL, 3), (corpus::SLICES, 4), (corpus::ARITH, 4)] } else { vec![(corpus::FULL, 4), (corpus::SLICES, 5), (corpus::ARITH, 5), (corpus::COMPARE, 4)] };
     for (p, nmax) in plan {
@@ -387,7 +513,7 @@ pub fn run(ctx: &Ctx) -> i32 {
         ctx,
         LevelInfo {
             level: "exploration",
-            rule: "whole pipeline (load, evaluate, manifest; error spans checked) on: all byte strings up to length 3/4 over a 54-symbol alphabet; all token sequences up to length 3/4 over 60 tokens; corpus programs up to the node bound; every function of std x every argument tuple from a boundary pool (40 values for arity <=2, 14 for arity 3, 7 above; quick halves the pools); 18 recursive syntactic forms at nesting depths 10..10^4(10^5), each in its own process; the real binary on one representative of every outcome class and on the nesting forms. Outcome classifier: value / Lex|Parse|Analyze error / EvalError only - a panic, abort or signal is a violation. distinct+nontrivial = distinct (function, outcome class) / sweep shards".into(),
+            rule: "whole pipeline (load, evaluate, manifest; error spans checked) on: all byte strings up to length 3/4 over a 54-symbol alphabet; all token sequences up to length 3/4 over 60 tokens; every single edit (insertion, deletion, replacement by each of 63 tokens and member-/clause-sized fragments, adjacent swap; thorough: plus a second deletion) of 25 well-formed seed programs; corpus programs up to the node bound; every function of std x every argument tuple from a boundary pool (40 values for arity <=2, 14 for arity 3, 7 above; quick halves the pools); 18 recursive syntactic forms at nesting depths 10..10^4(10^5), each in its own process; the real binary on one representative of every outcome class and on the nesting forms. Outcome classifier: value / Lex|Parse|Analyze error / EvalError only - a panic, abort or signal is a violation. distinct+nontrivial = distinct (function, outcome class) / sweep shards".into(),
             assumptions: vec!["memory exhaustion and the per-case time cap are resource outcomes, not verdicts".into(), "values outside the pools are not covered".into()],
         },
         total,
